@@ -300,6 +300,52 @@ func (j *jsonJudge) Compat(t1, t2 types.Type, path string, depth int) string {
 	return fmt.Sprintf("%s: unsupported type %s", path, t1)
 }
 
+// Overwrite: decoding an encoded value of t into a target that already holds another value of t leaves nothing of the
+// old value behind (the reader may reuse one variable for every record). Holds when every field is always emitted
+// (no omitempty) and its decoding replaces the old content: basic types, []byte (null gives nil, a string gives a
+// new slice), nested structs of such fields. Maps are merged into, pointers and slice elements are decoded in
+// place, interfaces keep their dynamic value's fields: all refused. Returns "" or the reason.
+func (j *jsonJudge) Overwrite(t types.Type, path string, depth int) string {
+	j.steps++
+	if depth > 8 {
+		return path + ": nesting too deep to judge"
+	}
+	t = types.Unalias(t)
+	if hasMethod(t, "UnmarshalJSON") || hasMethod(t, "MarshalJSON") {
+		return path + ": custom JSON methods are not judged"
+	}
+	switch u := t.Underlying().(type) {
+	case *types.Basic:
+		return ""
+	case *types.Slice:
+		if b, ok := types.Unalias(u.Elem()).Underlying().(*types.Basic); ok && b.Kind() == types.Uint8 {
+			return ""
+		}
+		return path + ": a slice is decoded element by element into the old backing array"
+	case *types.Array:
+		return j.Overwrite(u.Elem(), path+"[]", depth+1)
+	case *types.Struct:
+		fs, why := j.jsonFields(u, path)
+		if why != "" {
+			return why
+		}
+		for _, f := range fs {
+			if f.omitempty {
+				return fmt.Sprintf("%s.%s is omitempty: an empty value is left out of the record, and decoding the record into a reused variable keeps the field of the previous record", path, f.goName)
+			}
+			if why := j.Overwrite(f.typ, path+"."+f.goName, depth+1); why != "" {
+				return why
+			}
+		}
+		return ""
+	case *types.Map:
+		return path + ": decoding merges into an existing map"
+	case *types.Pointer:
+		return path + ": decoding reuses the object an existing pointer refers to"
+	}
+	return path + ": " + typeStr(t) + " is not judged"
+}
+
 func (j *jsonJudge) usedTrusted() []string {
 	var out []string
 	for k := range j.used {
@@ -313,7 +359,13 @@ func (j *jsonJudge) usedTrusted() []string {
 func (P *Prog) EvalJSONClause(c *Clause, pkgPath string) (ok bool, why string, steps int, trusted []string, err error) {
 	j := newJSONJudge(P)
 	text := strings.TrimSpace(c.Text)
-	if c.Kind == "roundtrip" {
+	if c.Kind == "jsonoverwrite" {
+		t, e := P.resolveType(text, pkgPath)
+		if e != nil {
+			return false, "", 0, nil, fmt.Errorf("%s:%d: %v", c.File, c.Line, e)
+		}
+		why = j.Overwrite(t, typeStr(t), 0)
+	} else if c.Kind == "roundtrip" {
 		t, e := P.resolveType(text, pkgPath)
 		if e != nil {
 			return false, "", 0, nil, fmt.Errorf("%s:%d: %v", c.File, c.Line, e)
@@ -342,7 +394,7 @@ func (P *Prog) EvalJSONClause(c *Clause, pkgPath string) (ok bool, why string, s
 // jsonReplay builds a test that encodes and decodes witness values of the type (all slices and maps empty but
 // non-nil, and all fields non-zero) and compares them with reflect.DeepEqual.
 func (P *Prog) jsonReplay(c *Clause, pkgPath string) *ReplaySpec {
-	if c.Kind != "roundtrip" {
+	if c.Kind != "roundtrip" && c.Kind != "jsonoverwrite" {
 		return nil
 	}
 	t, err := P.resolveType(strings.TrimSpace(c.Text), pkgPath)
@@ -463,6 +515,26 @@ func TestGocvReplayRoundTrip(t *testing.T) {
 		}
 	}
 }
-`, pkg.Name(), imp.String(), typeText, typeText, typeText)
+
+// generated by gocv: a record with empty fields decoded into a variable that still holds a full record
+func TestGocvReplayOverwrite(t *testing.T) {
+	var old, rec %s
+	gocvFill(reflect.ValueOf(&old).Elem(), true, 0)
+	gocvFill(reflect.ValueOf(&rec).Elem(), false, 0)
+	bz, err := json.Marshal(rec)
+	if err != nil {
+		t.Fatalf("marshal: %%v", err)
+	}
+	if err := json.Unmarshal(bz, &old); err != nil {
+		t.Fatalf("unmarshal %%s: %%v", bz, err)
+	}
+	if !reflect.DeepEqual(old, rec) {
+		t.Fatalf("decoding into a reused variable keeps parts of the previous record\nrecord: %%#v\njson:   %%s\nresult: %%#v", rec, bz, old)
+	}
+}
+`, pkg.Name(), imp.String(), typeText, typeText, typeText, typeText)
+	if c.Kind == "jsonoverwrite" {
+		return &ReplaySpec{PkgPath: pkgPath, TestName: "TestGocvReplayOverwrite", Source: src, What: "a record of " + typeText + " with empty fields decoded into a variable holding a full record"}
+	}
 	return &ReplaySpec{PkgPath: pkgPath, TestName: "TestGocvReplayRoundTrip", Source: src, What: "witness values of " + typeText + " (empty non-nil slices/maps; all fields non-zero)"}
 }
